@@ -427,7 +427,73 @@ class Model(object):
             self.registry_duplicates = dup
             self.registry_values = {}
             self._dynamic_registrations(reg)
+            self._wrapping_registrations(reg)
         return self._registry
+
+    def registering_methods(self):
+        """Names of the methods of the dispatcher class (the one that defines register_for) that hand on to register_for: decorators
+        that register what they wrap (``def register_numeric(self, *names): ... return self.register_for(*names)(wrapped)``)."""
+        out = set()
+        for m in self.modules.values():
+            for c in m.classes.values():
+                if not any(isinstance(n, ast.FunctionDef) and n.name == 'register_for' for n in c.body):
+                    continue
+                for n in c.body:
+                    if isinstance(n, ast.FunctionDef) and n.name != 'register_for' and \
+                            any(isinstance(x, ast.Attribute) and x.attr == 'register_for' for x in ast.walk(n)):
+                        out.add(n.name)
+        return out
+
+    def _wrapping_registrations(self, reg):
+        """``@dispatcher.register_numeric('ABS')``: the decorated function is the anchor for the syntactic rules; what is registered is
+        whatever the decorator makes of it - the interpreter applies the decorator and keeps the value, or records that it could not."""
+        names_ = self.registering_methods()
+        if not names_:
+            return
+        todo = []
+        for m, q, f in self.all_functions():
+            for d in getattr(f, 'decorator_list', []):
+                if isinstance(d, ast.Call) and isinstance(d.func, ast.Attribute) and d.func.attr in names_:
+                    todo.append((m, f, d, [a.value for a in d.args if isinstance(a, ast.Constant) and isinstance(a.value, str)]))
+        if not todo:
+            return
+        try:
+            from .absint import Interp, Frame, State, Builtin, Func, Const, _Signal, Unmodelled
+        except Exception:
+            return
+        keys = {}
+        for m in self.modules.values():
+            for c in m.classes.values():
+                for n in c.body:
+                    if isinstance(n, ast.FunctionDef) and n.name == 'register_for':
+                        keys[(m.name, '%s.%s' % (c.name, n.name))] = True
+        for m, f, d, names in todo:
+            found = []
+
+            def summary(interp, args, kwargs, found=found):
+                nm = 'hx:register:%d' % len(interp.extern)
+
+                def reg_(it, a, kw):
+                    found.append(a[0])
+                    return a[0]
+                interp.extern[nm] = reg_
+                return Builtin(nm)
+            value = None
+            try:
+                it = Interp(self, opaque=dict((k_, summary) for k_ in keys))
+                it.state, it.depth, it._decisions, it._dpos = State(), 0, [], 0
+                dec = it.expr(d, Frame({}, None, m))
+                it.call(dec, [Func(m, f)])
+                if len(found) == 1 and not it.state.imprecise:
+                    value = found[0]
+            except (_Signal, Unmodelled, AnalysisError, RecursionError):
+                value = None
+            except Exception:
+                value = None
+            for nm_ in names:
+                if nm_ not in reg:
+                    reg[nm_] = (m, f)
+                    self.registry_values[nm_] = value if value is not None else UNFOLLOWED
 
     def _dynamic_registrations(self, reg):
         """Registrations made by calling the decorator at import time (``f = d.register_for('A')(make(...))``, also inside a
@@ -485,6 +551,9 @@ class Model(object):
         if r is None:
             raise AnalysisError('no function registered for %r (anchor vanished)' % excel_name)
         return r
+
+
+UNFOLLOWED = 'hx:registered-through-a-decorator-the-interpreter-cannot-follow'
 
 
 def const_value(node):
